@@ -294,6 +294,20 @@ def isolation(chk, rule: str, rels=None):
                             f"`{name} = {src(val)}` is one class-level object and `{src(n)[:60]}` mutates it in place: every instance of {c.name} shares it, "
                             f"so what one node / client / map / dictionary does shows up in all the others")
     chk.ok(rule, f"{'package' if rels is None else ', '.join(sorted(rels))} | no class-level mutable state mutated in place", "canopen/", f"scanned {n_cls} classes")
+    # an object is constructed once: a method that re-runs the constructor wipes what was registered on it since (callbacks,
+    # condition variables threads are waiting on, subscriptions)
+    for m in repo.modules.values():
+        if rels is not None and m.rel not in rels:
+            continue
+        for c in m.classes.values():
+            for mname, meth in c.methods.items():
+                if mname == "__init__":
+                    continue
+                for x in own_nodes(meth.node):
+                    if isinstance(x, ast.Call) and dotted(x.func) in ("self.__init__", f"{c.name}.__init__"):
+                        chk.bad(rule, f"{m.rel}:{c.name}.{mname} | the constructor runs once", meth.loc(x),
+                                f"`{src(x)[:40]}` re-initialises a live object: callbacks registered on it are forgotten and threads waiting on its condition variable "
+                                f"are never woken (they wait on the old one)")
     logging_inert(chk, rule, rels)
     t = ast.parse("class S:\n    _buffer = bytearray()\n    def f(self, d):\n        b = self._buffer\n        b[:] = d\n")
     chk.fixture(rule, "class-level bytearray mutated through an alias", _is_mutable_value(t.body[0].body[0].value) and bool(_mutations_of(t.body[0].body[1], "self._buffer")))
@@ -529,3 +543,24 @@ def pdo_lookup(chk, rule: str):
         chk.floor(rule, n_forms, 1, "searches over self.map in PdoMap item access")
     pos = [n for n in ast.walk(gi.node) if isinstance(n, ast.Subscript) and src(n.value) == "self.map"]
     chk.check(len(pos) >= 1, rule, f"{PB}:PdoMap.__getitem__ | access by position reads the current map", gi.loc(), "no self.map[<position>] in __getitem__")
+
+
+def readinto_delivers_all(chk, rule: str, cname: str):
+    """readinto() hands every byte it took from the wire to the caller: the segment returned by read() is stored whole
+    and its length reported (a segment that does not fit must raise, never be cut: the rest would be lost silently)."""
+    repo, folder = ctx(chk)
+    f = repo.func(CL, f"{cname}.readinto", f"{chk.prop}.{rule}")
+    ff = ff_for(chk, f, f"{chk.prop}.{rule}")
+    bp = f.params[1]
+    reads = [n for n in own_nodes(f.node) if isinstance(n, ast.Assign) and isinstance(n.value, ast.Call) and dotted(n.value.func) == "self.read"]
+    chk.check(len(reads) == 1 and isinstance(reads[0].targets[0], ast.Name), rule, f"{CL}:{cname}.readinto | one segment per call", f.loc(), f"{[src(r) for r in reads]}")
+    if len(reads) != 1 or not isinstance(reads[0].targets[0], ast.Name):
+        return
+    d = reads[0].targets[0].id
+    stores = [n for n in own_nodes(f.node) if isinstance(n, ast.Assign) and isinstance(n.targets[0], ast.Subscript) and src(n.targets[0].value) == bp]
+    rets = [n for n in own_nodes(f.node) if isinstance(n, ast.Return) and n.value is not None]
+    ok_store = len(stores) == 1 and src(stores[0].value) == d and src(stores[0].targets[0]) in (f"{bp}[:len({d})]", f"{bp}[0:len({d})]")
+    chk.check(ok_store, rule, f"{CL}:{cname}.readinto | the whole segment is stored", f.loc(stores[0] if stores else None),
+              f"{[src(s_) for s_ in stores]}: bytes of the segment that are not stored are gone (the segment was already consumed from the bus); the caller gets data with bytes missing "
+              f"and no error")
+    chk.check(len(rets) == 1 and src(rets[0].value) == f"len({d})", rule, f"{CL}:{cname}.readinto | reports the segment's length", f.loc(), f"{[src(r) for r in rets]}")
